@@ -94,6 +94,51 @@ def callee_binarize(eng, st, args, kw, node):
     return npspec.materialise(eng, st, core.Mat(m.shape, lambda x, y: z3.If(core.to_z3(m.fn(x, y), core.REAL) != 0, z3.RealVal(1), z3.RealVal(0)), core.REAL))
 
 
+def callee_from_clauses(name, params, requires, ensures, results, ghosts=None):
+    """Callee stub generated from contract clauses (the same clause texts that the callee's own contract proves): at the call site the
+    parameters are bound to the actual arguments, every `requires` clause becomes an obligation of the caller, the results are fresh
+    values of the declared kinds and exactly the `ensures` clauses are assumed about them (`result(k)` refers to them).
+    results: list of ('mat'|'bmat'|'int', shape-expression strings evaluated with the parameters bound); ghosts: name -> expression."""
+    def stub(eng, st, args, kw, node):
+        if kw or len(args) != len(params):
+            raise OutOfSubset('call of %s with keywords / wrong arity' % name)
+        saved_env = {k: st.env[k] for k in params if k in st.env}
+        missing_env = [k for k in params if k not in st.env]
+        saved_ghost = dict(st.ghost)
+        try:
+            for k, a in zip(params, args):
+                if isinstance(a, (core.Row, core.Mat)):
+                    a = eng.np.materialise(eng, st, a)
+                st.env[k] = a
+            for g, src in (ghosts or {}).items():
+                st.ghost[g] = eng.ev_str(src, st)
+            for cname, src in requires:
+                eng.oblige(st, 'call[%s]/requires/%s' % (name, cname), core.truth(eng.ev_str(src, st)))
+            res = []
+            for kind, *dims in results:
+                shp = tuple(eng.ev_str(d, st) for d in dims)
+                if kind == 'mat':
+                    res.append(core.alloc(st, 2, core.fresh('res_' + name, core.A2R), shp, core.REAL))
+                elif kind == 'bmat':
+                    res.append(core.alloc(st, 2, core.fresh('res_' + name, z3.ArraySort(core.INT, z3.ArraySort(core.INT, core.BOOL))), shp, core.BOOL))
+                elif kind == 'int':
+                    res.append(core.fresh('res_' + name, core.INT))
+                else:
+                    raise ContractError('result kind %s' % kind)
+            st.ghost['_result'] = core.TupleV(res) if len(res) != 1 else res[0]
+            for cname, src in ensures:
+                st.pc.append(core.truth(eng.ev_str(src, st)))
+            return core.TupleV(res) if len(res) != 1 else res[0]
+        finally:
+            for k in params:
+                st.env.pop(k, None)
+            st.env.update(saved_env)
+            keep = {k: v for k, v in st.ghost.items() if k not in saved_ghost and k not in (ghosts or {}) and k != '_result'}
+            st.ghost = dict(saved_ghost)
+            st.ghost.update(keep)
+    return stub
+
+
 DEFAULT_CALLEES = {'binarize': callee_binarize, 'teachers_round': callee_teachers_round, 'round': callee_teachers_round, 'degrees_und': callee_degrees_und, 'degrees_dir': callee_degrees_dir, 'strengths_und': callee_strengths_und, 'pick_four_unique_nodes_quickly': callee_pick_four, 'get_rng': callee_get_rng, 'number_of_components': callee_number_of_components}
 
 
